@@ -608,7 +608,31 @@ func (c *c16case) args(onlyGood bool) []string {
 	return append(args, srcs...)
 }
 
+// c16Sym stands at the Symbolizer plug-in seam and records what pprof hands
+// to symbolization: per mapping key, the sources in the order pprof lists
+// them (the first one with a symbol service is the one that gets asked).
+type c16Sym struct{ got *string }
+
+func (s c16Sym) Symbolize(mode string, srcs plugin.MappingSources, prof *profile.Profile) error {
+	keys := make([]string, 0, len(srcs))
+	for k := range srcs {
+		keys = append(keys, k)
+	}
+	sort.Strings(keys)
+	var sb strings.Builder
+	for _, k := range keys {
+		fmt.Fprintf(&sb, "%s:", k)
+		for _, v := range srcs[k] {
+			fmt.Fprintf(&sb, " %s@%#x", v.Source, v.Start)
+		}
+		sb.WriteString("\n")
+	}
+	*s.got = sb.String()
+	return nil
+}
+
 type c16out struct {
+	msrc string // mapping sources handed to the symbolizer
 	err    error
 	out    []byte
 	hasOut bool
@@ -628,14 +652,14 @@ func (c *c16case) run(x *xctx, cfg simrt.Config, onlyGood bool, zeroLatency bool
 	net := c.install()
 	ui := newTaskUI()
 	w := newWriter()
-	o := &plugin.Options{Flagset: newFlags(c.args(onlyGood)), UI: ui, Writer: w, Sym: nopSym{}, Obj: c16Obj{}, Fetch: net, HTTPTransport: net}
+	var out c16out
+	o := &plugin.Options{Flagset: newFlags(c.args(onlyGood)), UI: ui, Writer: w, Sym: c16Sym{&out.msrc}, Obj: c16Obj{}, Fetch: net, HTTPTransport: net}
 	if c.realTransport {
 		// pprof's own transport (internal/transport) over the simulated network
 		o.HTTPTransport = nil
 		simhttp.SetNetwork(c16tls{net})
 		defer simhttp.SetNetwork(nil)
 	}
-	var out c16out
 	cfg.Tape = x.t
 	simos.StartLog()
 	out.res = simrt.Exec(cfg, func() { out.err = PProf(o) })
@@ -916,6 +940,9 @@ func runC16(x *xctx) *violation {
 	}
 	if !bytes.Equal(got.out, ref.out) {
 		return violf("schedule-dependent", "report bytes differ between the seeded schedule and the sequential one (%d vs %d bytes)", len(got.out), len(ref.out))
+	}
+	if got.msrc != ref.msrc {
+		return violf("schedule-dependent", "the mapping sources handed to symbolization (which decide the host that is asked for symbols) differ between the seeded schedule and the sequential one: %s", firstDiff(got.msrc, ref.msrc))
 	}
 	if uiMultiset(got.ui) != uiMultiset(ref.ui) {
 		return violf("schedule-dependent", "UI messages differ between schedules:\n%s\n--- vs ---\n%s", uiMultiset(got.ui), uiMultiset(ref.ui))
